@@ -324,6 +324,10 @@ type PWCase struct {
 
 func genPW(t *rapid.T) PWCase {
 	n := rapid.IntRange(2, 12).Draw(t, "n")
+	if rapid.IntRange(0, 9).Draw(t, "longTable") == 4 {
+		// tables long enough for a search that switches strategy by size (sizes around powers of two)
+		n = rapid.SampledFrom([]int{31, 32, 33, 63, 64, 65, 66, 100, 128, 129, 257, 366}).Draw(t, "nLong")
+	}
 	c := PWCase{Step: rapid.IntRange(1, 3).Draw(t, "step")}
 	if rapid.IntRange(0, 2).Draw(t, "block") == 0 {
 		c.Step, c.Block = 1, true
@@ -350,7 +354,11 @@ func genPW(t *rapid.T) PWCase {
 	nq := rapid.IntRange(1, 12).Draw(t, "nq")
 	for i := 0; i < nq; i++ {
 		var q float64
-		switch rapid.IntRange(0, 6).Draw(t, "qk") {
+		switch rapid.IntRange(0, 8).Draw(t, "qk") {
+		case 7:
+			q = xs[0] // the first knot
+		case 8:
+			q = xs[n-1] // the last knot
 		case 0:
 			q = xs[rapid.IntRange(0, n-1).Draw(t, "knot")]
 		case 1:
